@@ -559,7 +559,12 @@ Definition parse_declaration (t : text) : pr declaration :=
   pdo (v, r5) <- parse_value r4;
   POk (mkdecl (decl_of prop (fst v)) (snd v)) r5.
 
-Definition semi_sep (t : text) : pr unit :=
+(* one separator item: optional whitespace, ';', optional whitespace; the separator is many1 of these *)
+Definition semi_item (t : text) : pr unit :=
+  pdo (_, r) <- ptag [59] (skip_ws t); POk tt (skip_ws r).
+Definition semi_sep (t : text) : pr (list unit) := many1 semi_item t.
+(* ';' followed by optional whitespace (the trailing semicolons of a block) *)
+Definition semi_ws (t : text) : pr unit :=
   pdo (_, r) <- ptag [59] t; POk tt (skip_ws r).
 Definition parse_rules (t : text) : pr (list declaration) :=
   separated_list0 semi_sep parse_declaration t.
@@ -692,7 +697,7 @@ Definition parse_ruleset (t : text) : pr cssruleset :=
   let r4 := skip_ws r3 in
   pdo (decls, r5) <- parse_rules r4;
   let r6 := skip_ws r5 in
-  pdo (_semi, r7) <- popt (ptag [59] r6) r6;
+  pdo (_semi, r7) <- many0 semi_ws r6;
   let r8 := skip_ws r7 in
   pdo (_, r9) <- ptag [125] r8;
   POk (mkcrs sels decls) (skip_ws r9).
